@@ -157,12 +157,12 @@ func readMetaFields(file string) ([]metaField, error) {
 	for sc.Scan() {
 		line := sc.Text()
 		if m := groupRe.FindStringSubmatch(line); m != nil {
-			group = m[1]
+			group = strings.Trim(m[1], `"'`)
 			cur = nil
 			continue
 		}
 		if m := fieldRe.FindStringSubmatch(line); m != nil {
-			out = append(out, metaField{group: group, name: m[1], kv: map[string]string{}})
+			out = append(out, metaField{group: group, name: strings.Trim(m[1], `"'`), kv: map[string]string{}})
 			cur = &out[len(out)-1]
 			continue
 		}
@@ -199,8 +199,19 @@ func kindMetaV1Names(it Item) (string, error) {
 		return "", err
 	}
 	var rows []string
+	// a field without v1name that exists since v1 (no firstversion) is read from the top-level v1 key of the
+	// same name (templates/genfield.tmpl); names used by several such fields are ambiguous and left out
+	sameName := map[string]int{}
+	for _, f := range fields {
+		if f.kv["v1name"] == "" && f.kv["firstversion"] == "" {
+			sameName[f.name]++
+		}
+	}
 	for _, f := range fields {
 		if f.kv["v1name"] == "" {
+			if f.kv["firstversion"] == "" && f.kv["lastversion"] == "" && sameName[f.name] == 1 {
+				rows = append(rows, fmt.Sprintf("(%s, %s, %s, %s, %s)", coqStr(""), coqStr(f.name), coqStr(f.group), coqStr(f.name), coqStr(f.kv["type"])))
+			}
 			continue
 		}
 		rows = append(rows, fmt.Sprintf("(%s, %s, %s, %s, %s)", coqStr(f.kv["v1group"]), coqStr(f.kv["v1name"]), coqStr(f.group), coqStr(f.name), coqStr(f.kv["type"])))
